@@ -48,4 +48,50 @@ Theorem C11_any_plan_end_column_is_measure :
      rendered_col rs false col p = token_line_length rs col d tok (f_sp f)).
 Proof. exact olf_effect_end_column. Qed.
 
+(* the search model: the penalty of a solution accounts for every token that CONTINUES a line beyond max_line_length (at every depth of
+   child solutions, cached ones included): a solution cheaper than 2^20 has no such token, and any such token costs at least 2^20.
+   A token that STARTS a line pays nothing however long it is (witness): "fits" can fail only there. *)
+From PasfmtVerif Require Import Model.WrapContexts Model.WrapSearch Model.WrapFormat Proofs.WrapSearchProofs Proofs.WrapSearchDeepProofs Proofs.WrapFitsProofs Proofs.WrapDepthProofs Proofs.WrapEventsProofs Proofs.WrapPhasesProofs Proofs.WrapAliasProofs.
+Theorem C11_cheap_solution_fits :
+  forall (W : wsettings) (lvs : list lview) (fmain depth : nat) (lv : lview) 
+    (ws : N * N) (first : first_decision) (st' : sst) (s : solution),
+  solve W lvs fmain depth sst_init lv ws first = (st', Some s) ->
+  sol_pen s < 1048576 -> fits_deep W s.
+Proof. exact solve_fits. Qed.
+
+Theorem C11_overflow_costs_a_megapenalty :
+  forall (W : wsettings) (s : solution) (t : tdec),
+  pen_sound W s ->
+  In t (sol_decs s) -> td_dec t = WContinue -> w_max W < td_lll t -> 1048576 <= sol_pen s.
+Proof. exact overflow_costs. Qed.
+
+Theorem C11_penalty_accounts_for_every_overflow :
+  forall (W : wsettings) (lvs : list lview) (fmain depth : nat) (st : sst) 
+    (lv : lview) (ws : N * N) (first : first_decision),
+  cache_ps W st ->
+  cache_ps W (fst (solve W lvs fmain depth st lv ws first)) /\
+  (forall s : solution, snd (solve W lvs fmain depth st lv ws first) = Some s -> pen_sound W s).
+Proof. exact solve_pen_sound. Qed.
+
+Theorem C11_line_start_overflow_is_free_witness :
+  let infos :=
+    [{| ti_ty := TT_Identifier; ti_sp := 0; ti_len := 1; ti_ml := None |};
+     {| ti_ty := TT_Identifier; ti_sp := 1; ti_len := 50; ti_ml := None |};
+     {| ti_ty := TT_Eof; ti_sp := 0; ti_len := 0; ti_ml := None |}] in
+  let lines :=
+    [{| ll_type := LLT_Unknown; ll_level := 0; ll_parent := None; ll_toks := [0%nat] |};
+     {| ll_type := LLT_Unknown; ll_level := 0; ll_parent := None; ll_toks := [1%nat] |};
+     {| ll_type := LLT_Eof; ll_level := 0; ll_parent := None; ll_toks := [2%nat] |}] in
+  match nth_error (mk_lviews infos lines) 1 with
+  | Some lv =>
+      let (_, o) :=
+        solve exa_W (mk_lviews infos lines) (main_fuel exa_W) 4 sst_init lv (0, 0) FD_Break in
+      match o with
+      | Some s => sol_pen s = 3 /\ map td_lll (sol_decs s) = [50] /\ cont_over exa_W s = false
+      | None => False
+      end
+  | None => False
+  end.
+Proof. exact break_overflow_is_free'. Qed.
+
 
